@@ -57,6 +57,7 @@ pub fn eval_simple(
     report: &mut diagn::Report,
     decls: &asm::ItemDecls,
     defs: &asm::ItemDefs,
+    symbol_ctx: &util::SymbolContext,
     expr: &expr::Expr)
     -> Result<expr::Value, ()>
 {
@@ -68,6 +69,7 @@ pub fn eval_simple(
                 asm::resolver::eval_variable_simple(
                     decls,
                     defs,
+                    symbol_ctx,
                     query_var),
                     
             expr::EvalQuery::Function(_) =>
@@ -100,6 +102,7 @@ pub fn eval_certain(
     report: &mut diagn::Report,
     decls: &asm::ItemDecls,
     defs: &asm::ItemDefs,
+    symbol_ctx: &util::SymbolContext,
     expr: &expr::Expr)
     -> Result<expr::Value, ()>
 {
@@ -111,6 +114,7 @@ pub fn eval_certain(
                 asm::resolver::eval_variable_certain(
                     decls,
                     defs,
+                    symbol_ctx,
                     query_var),
                     
             expr::EvalQuery::Function(_) =>
@@ -213,6 +217,7 @@ pub fn eval_variable(
 pub fn eval_variable_simple(
     decls: &asm::ItemDecls,
     defs: &asm::ItemDefs,
+    symbol_ctx: &util::SymbolContext,
     query: &mut expr::EvalVariableQuery)
     -> Result<expr::Value, ()>
 {
@@ -226,7 +231,7 @@ pub fn eval_variable_simple(
     }
 
     let symbol_ref = decls.symbols.try_get_by_name(
-        &util::SymbolContext::new_global(),
+        symbol_ctx,
         query.hierarchy_level,
         query.hierarchy);
 
@@ -243,6 +248,7 @@ pub fn eval_variable_simple(
 pub fn eval_variable_certain(
     decls: &asm::ItemDecls,
     defs: &asm::ItemDefs,
+    symbol_ctx: &util::SymbolContext,
     query: &mut expr::EvalVariableQuery)
     -> Result<expr::Value, ()>
 {
@@ -266,7 +272,7 @@ pub fn eval_variable_certain(
     let symbol_ref = decls.symbols.get_by_name(
         query.report,
         query.span,
-        &util::SymbolContext::new_global(),
+        symbol_ctx,
         query.hierarchy_level,
         query.hierarchy)?;
 
